@@ -38,7 +38,7 @@ Definition set_skip (d : dna) (n : nat) : dna :=
   mkDna (dval d) (dpid d) (dgid d) (dini d) (dfsn d) (dfit d) (dkey d) n.
 
 (* one persisted history entry: the DNA (with metadata) and its reward, None when it never arrived *)
-Definition hentry := (dna * option Z)%type.
+Notation hentry := (dna * option Z)%type.
 
 Inductive outcome := Ok (d : dna) | Stop | Fail (code : Z).
 
